@@ -426,6 +426,35 @@ scan_decimal(const char *s, uint64_t *mant, int *dexp, uint8_t *neg)
     return s;
 }
 
+/* mant * 10^dexp in binary32 arithmetic. Powers of ten up to 10^10 are exact
+ * in binary32, so the common case costs one rounding of the mantissa and one
+ * of the multiplication or division; larger exponents take one step per set
+ * bit of the exponent, smallest power first, so that nothing overflows or
+ * underflows before the result does. */
+static float32_t scale_decimal32(uint64_t mant, int dexp)
+{
+    static const float32_t exact[] = {1e0f, 1e1f, 1e2f, 1e3f, 1e4f, 1e5f,
+                                      1e6f, 1e7f, 1e8f, 1e9f, 1e10f};
+    static const float32_t binpow[] = {1e1f, 1e2f, 1e4f, 1e8f, 1e16f, 1e32f};
+    float32_t val = (float32_t)mant;
+    uint8_t down = dexp < 0;
+    unsigned n = down ? 0u - (unsigned)dexp : (unsigned)dexp;
+    unsigned i;
+
+    if (mant == 0 || n == 0)
+        return val;
+    if (n <= 10)
+        return down ? val / exact[n] : val * exact[n];
+    if (n >= 64) /* mant < 2^64 < 10^20, binary32 spans 10^-45 .. 10^39 */
+        return down ? 0.0f : val * 1e32f * 1e32f;
+    for (i = 0; n; n >>= 1, ++i)
+    {
+        if (n & 1)
+            val = down ? val / binpow[i] : val * binpow[i];
+    }
+    return val;
+}
+
 float32_t igris_atof32(const char *str, char **pend)
 {
     uint64_t mant;
@@ -444,17 +473,7 @@ float32_t igris_atof32(const char *str, char **pend)
     if (pend)
         *pend = (char *)end;
 
-    ret = (float32_t)mant;
-    while (dexp > 0 && ret != 0 && !isinf(ret))
-    {
-        ret *= 10.0f;
-        dexp--;
-    }
-    while (dexp < 0 && ret != 0)
-    {
-        ret /= 10.0f;
-        dexp++;
-    }
+    ret = scale_decimal32(mant, dexp);
     return minus ? -ret : ret;
 }
 
@@ -462,6 +481,34 @@ float32_t igris_atof32(const char *str, char **pend)
 char *igris_f64toa(float64_t f, char *buf, int8_t precision)
 {
     return igris_f32toa((float32_t)f, buf, precision);
+}
+
+/* mant * 10^dexp in binary64 arithmetic; see scale_decimal32. Powers of ten
+ * up to 10^22 are exact in binary64. */
+static float64_t scale_decimal64(uint64_t mant, int dexp)
+{
+    static const float64_t exact[] = {
+        1e0,  1e1,  1e2,  1e3,  1e4,  1e5,  1e6,  1e7,  1e8,  1e9,  1e10, 1e11,
+        1e12, 1e13, 1e14, 1e15, 1e16, 1e17, 1e18, 1e19, 1e20, 1e21, 1e22};
+    static const float64_t binpow[] = {1e1,  1e2,  1e4,   1e8,  1e16,
+                                       1e32, 1e64, 1e128, 1e256};
+    float64_t val = (float64_t)mant;
+    uint8_t down = dexp < 0;
+    unsigned n = down ? 0u - (unsigned)dexp : (unsigned)dexp;
+    unsigned i;
+
+    if (mant == 0 || n == 0)
+        return val;
+    if (n <= 22)
+        return down ? val / exact[n] : val * exact[n];
+    if (n >= 512) /* mant < 10^20, binary64 spans 10^-324 .. 10^309 */
+        return down ? 0.0 : val * 1e256 * 1e256;
+    for (i = 0; n; n >>= 1, ++i)
+    {
+        if (n & 1)
+            val = down ? val / binpow[i] : val * binpow[i];
+    }
+    return val;
 }
 
 float64_t igris_atof64(const char *nptr, char **endptr)
@@ -482,18 +529,7 @@ float64_t igris_atof64(const char *nptr, char **endptr)
     if (endptr)
         *endptr = (char *)end;
 
-    val = (double)mant;
-    while (d > 0 && val != 0 && !isinf(val))
-    {
-        val *= 10.0;
-        d--;
-    }
-    while (d < 0 && val != 0)
-    {
-        val *= 0.1;
-        d++;
-    }
-
+    val = scale_decimal64(mant, d);
     return minus ? -val : val;
 }
 
